@@ -935,10 +935,27 @@ func (s *c10seq) randomOps(rng *Rng, cfg c10cfg) {
 			default:
 				dt = 1 + int64(rng.Intn(int(T)+1))
 			}
+			aimed := false
+			if lb := s.limitBids(); lb != "-" && rng.Chance(70) {
+				// aim the block at the premium bucket of a waiting limit bid: price = orc·(1 − (k+½)/100), dur = tau·(1 − price/init)
+				var k int64
+				fmt.Sscanf(strings.Split(lb, ",")[rng.Intn(len(strings.Split(lb, ",")))], "%d:", &k)
+				disc := c10dec(cfg.discount)
+				if a.CollateralTokenInitialPrice.IsPositive() && disc.LT(sdk.OneDec()) {
+					want := a.CollateralTokenOraclePrice.Mul(sdk.NewDec(200 - 2*k - 1)).QuoInt64(200)
+					tauD := sdk.NewDec(T).Quo(sdk.OneDec().Sub(disc))
+					dur := tauD.Mul(sdk.OneDec().Sub(want.Quo(a.CollateralTokenInitialPrice))).TruncateInt64()
+					if dur > el && dur <= T {
+						dt = dur - el
+						aimed = true
+						s.tr.Count("tickkind:aimed-at-limit-bid")
+					}
+				}
+			}
 			if dt < 1 {
 				dt = 1
 			}
-			if rng.Chance(25) {
+			if !aimed && rng.Chance(25) {
 				tc, _ := s.collTwa()
 				nt := tc * uint64(80+rng.Intn(41)) / 100
 				if nt == 0 {
@@ -1299,6 +1316,13 @@ func TestC10(t *testing.T) {
 	s.limit("b4", 30, sdk.NewInt(700000))
 	s.tick(30 * time.Minute)
 	s.bid("b1", sdk.NewInt(5000000))
+	// ---- corpus 2b: a limit fill clipped by exhausted collateral debits the whole remaining target from the deposit
+	cfg = base
+	cfg.dropTo = 1000000
+	cfg.reserve = 1000000
+	s = c10start(t, f, tr, cfg)
+	s.limit("b1", 1, sdk.NewInt(2000000))
+	s.tick(2100 * time.Second)
 	// ---- corpus 3: plain scripted closes of each kind
 	s = c10start(t, f, tr, base)
 	s.bid("b1", sdk.NewInt(100000))
